@@ -43,7 +43,7 @@ def skey(st):
 
 
 class Graph:
-    def __init__(self, records):
+    def __init__(self, records, base_keys=BASE_KEYS):
         self.ids = {}
         self.out = []  # state id -> list of [op, post_id, visited]
         self.full = {}  # state id -> canonical expected full state
@@ -51,7 +51,7 @@ class Graph:
         for r in records:
             pre = self._id(skey(canon_state(r["pre"])))
             post_full = canon_state(r["post"])
-            post = self._id(skey({k: v for k, v in post_full.items() if k in BASE_KEYS}))
+            post = self._id(skey({k: v for k, v in post_full.items() if base_keys is None or k in base_keys}))
             if self.init is None:
                 self.init = pre
             self.full.setdefault(post, post_full)
@@ -132,7 +132,7 @@ class Walker:
     """Executes every edge of a Graph at least once (covering walk with restarts)."""
 
     def __init__(self, graph, make_env, keys, *, seed=0, max_run=400, on_step=None, max_violations=400,
-                 on_run_end=None):
+                 on_run_end=None, observable=None):
         self.g = graph
         self.make_env = make_env
         self.keys = [k for k in keys]
@@ -140,6 +140,7 @@ class Walker:
         self.max_run = max_run
         self.on_step = on_step
         self.on_run_end = on_run_end
+        self.observable = observable
         self.extra = []  # violations (dicts) reported by on_run_end
         self.violations = []
         self.max_violations = max_violations
@@ -247,6 +248,8 @@ class Walker:
                                                  [args_of(o) for o in history]))
                 bad = True
             exp_state = g.full[target[1]]
+            if self.observable is not None:
+                exp_state = {k: v for k, v in exp_state.items() if k in self.observable}
             obs_state = env.project([k for k in exp_state if k not in UNOBSERVABLE])
             d = diff_states(exp_state, obs_state)
             if d:
